@@ -6,7 +6,7 @@ import tempfile
 import datetime as dt
 
 from harness.core import Part, Out, ok, viol, discard, HarnessError
-from harness import dp, bv, grammar, bumpref
+from harness import fuzz, dp, bv, grammar, bumpref
 from harness.refmodel import (PART_FIELD, PYTAG, parts_of, pattern_str, ref_render, ref_parse_all, with_defaults,
                               selftest_calendar, ref_cal)
 
@@ -392,6 +392,7 @@ def selftest():
 PARTS = [
     Part("A-date-sweep", check=check_year, domain=years, exhaustive=lambda tier: True),
     Part("B-states-and-incr", check=check_b, strategy=lambda: dp.cases(build_b, size=192), n={"quick": 64000, "thorough": 1200000}),
+    fuzz.fuzz_part("B-coverage-guided", build_b, check_b, size=192, runs={"quick": 12000, "thorough": 400000}),
     Part("C-cli-chain", check=check_c, strategy=lambda: dp.cases(build_b, size=192), n={"quick": 4000, "thorough": 80000}),
 ]
 
